@@ -137,6 +137,12 @@ def roundtrip : Handler := fun j => do
       match d, m with
       | "tree", .dir _ td _ => cas := cas.filter (fun kv => kv.1 != td)
       | "file", .file _ dg _ _ => cas := cas.filter (fun kv => kv.1 != dg)
+      | "dirfiles", .dir id _ _ =>
+        match ws.get (pkg ++ splitPath id) with
+        | some (.dir es) =>
+          let gone := (encList Hid serD es).ups.map (·.1)
+          cas := cas.filter (fun kv => !gone.contains kv.1)
+        | _ => pure ()
       | _, _ => pure ()
   -- restore
   let declared2 := match getOutputs j "declared2" with
